@@ -281,6 +281,38 @@ pub fn mock_info() -> Info<'static> {
 	MockInfoBuilder::new().build()
 }
 
+/// Like `run_effect`, but the instance first lives at another device rate: init(sr_before), a few
+/// hundred frames at that rate, `on_change_sample_rate(sr)`, then the input at `sr`.
+pub fn run_effect_after_rate_change(spec: &FxSpec, sr_before: u32, sr: u32, ibs: usize, input: &[Frame], partition: &[usize]) -> Vec<Frame> {
+	let mut fx = spec.build();
+	fx.init(sr_before, ibs);
+	let info = mock_info();
+	let mut warm: Vec<Frame> = (0..300).map(|i| Frame::from_mono(((i * 37 % 101) as f32 / 101.0 - 0.5) * 0.2)).collect();
+	let mut pos = 0;
+	while pos < warm.len() {
+		let n = ibs.min(warm.len() - pos);
+		fx.on_start_processing();
+		fx.process(&mut warm[pos..pos + n], 1.0 / sr_before as f64, &info);
+		pos += n;
+	}
+	fx.on_change_sample_rate(sr);
+	let dt = 1.0 / sr as f64;
+	let mut out = input.to_vec();
+	let mut pos = 0;
+	let mut k = 0;
+	while pos < out.len() {
+		let n = partition[k % partition.len()].clamp(1, ibs).min(out.len() - pos);
+		k += 1;
+		fx.on_start_processing();
+		fx.process(&mut out[pos..pos + n], dt, &info);
+		pos += n;
+		if k % 64 == 0 {
+			crate::monitors::bump();
+		}
+	}
+	out
+}
+
 /// Drives a fresh effect instance: init(sr, ibs), then on_start_processing + process over slices
 /// given by `partition` (cycled; every slice is clamped to 1..=ibs as the init contract requires).
 pub fn run_effect(spec: &FxSpec, sr: u32, ibs: usize, input: &[Frame], partition: &[usize]) -> Vec<Frame> {
